@@ -56,6 +56,16 @@ Proof.
   pose proof (pow2_ge1 n). nia.
 Qed.
 
+(* once Min*2^n has reached Max the wait IS Max - for every n, however long the outage (the
+   arithmetic is unbounded: no n at which the product wraps and the wait falls back) *)
+Lemma dur_at_cap c n : good_cfg c -> cmax c <= cmin c * 2 ^ Z.of_nat n -> dur c n = cmax c.
+Proof. intros H Hle. rewrite dur_good by assumption. lia. Qed.
+
+Lemma dur_cap_is_kept c n m : good_cfg c -> (n <= m)%nat -> dur c n = cmax c -> dur c m = cmax c.
+Proof.
+  intros H Hnm Hn. pose proof (dur_mono c n m H Hnm). pose proof (dur_bounds c m H). lia.
+Qed.
+
 Lemma dur_doubles c n : good_cfg c -> cmin c * 2 ^ Z.of_nat n <= cmax c -> dur c n = cmin c * 2 ^ Z.of_nat n.
 Proof. intros H Hle. rewrite dur_good by assumption. lia. Qed.
 
@@ -284,9 +294,13 @@ Lemma waits_monotone_bounded c : good_cfg c ->
     (forall j, cmin c <= wait_after c (S j) <= cmax c) /\
     wait_after c 1 = cmin c /\
     (forall j, cmin c * 2 ^ Z.of_nat j <= cmax c -> wait_after c (S j) = cmin c * 2 ^ Z.of_nat j) /\
-    (forall j, (Z.to_nat (Z.log2_up (cmax c)) <= j)%nat -> wait_after c (S j) = cmax c).
+    (forall j, (Z.to_nat (Z.log2_up (cmax c)) <= j)%nat -> wait_after c (S j) = cmax c) /\
+    (forall j, cmax c <= cmin c * 2 ^ Z.of_nat j -> wait_after c (S j) = cmax c) /\
+    (forall j k, (j <= k)%nat -> wait_after c (S j) = cmax c -> wait_after c (S k) = cmax c).
 Proof.
-  intros H. split; [|split; [|split; [|split]]].
+  intros H. split; [|split; [|split; [|split; [|split; [|split]]]]]; cycle 5.
+  { intros j. exact (dur_at_cap c j H). }
+  { intros j k Hjk. exact (dur_cap_is_kept c j k H Hjk). }
   - intros j k. exact (wait_after_mono c j k H).
   - intros j. exact (wait_after_bounds c j H).
   - exact (dur_first c H).
@@ -568,7 +582,7 @@ Proof.
     destruct ab as [a b]. unfold keeps in Hk.
     assert (Hb : holds b = true).
     { destruct l; cbn [fst snd] in Hk; [exact Hk|]. destruct (access_result a); [discriminate | exact Hk]. }
-    destruct b; try discriminate. destruct l; reflexivity.
+    destruct b; try discriminate; destruct l; reflexivity.
 Qed.
 
 (* ------------------------------------------------------------------ who notices the loss *)
